@@ -679,6 +679,12 @@ def check(prog, rep):
     check_labels(prog, rep, m)
     check_precision(prog, rep, m)
     check_formulas(prog, rep, m)
+    # the public classifiers are glue around the dispatch: raster in as given, backend result out as it is
+    from ..sharedrules import check_dispatch_passthrough
+    for fn in ('binary', 'reclassify', 'quantile', 'natural_breaks', 'equal_interval'):
+        if m.funcs.get(fn) is not None:
+            check_dispatch_passthrough(prog, rep, 'K7-pass', m.funcs[fn])
+    rep.floor('K7-pass', 8)
     rep.floor('K1', 5)
     rep.floor('K2', 4)
     rep.floor('K3', 4)
